@@ -48,6 +48,8 @@ M = [
  ("C02_value_pointer_dropped", "C02", "internal/pkg/syntax/helpers.go", "return m[\"ptr\"] + strings.Join(append(parts, m[\"value\"]), \".\")", "return strings.Join(append(parts, m[\"value\"]), \".\")", "CompileServiceValue"),
  ("C16_flag_variables_swapped", "C16", "internal/cmd/cmd_build.go", 'cmd.Flags().BoolVarP(&ignoreMissingParams, "ignore-missing-params", "", false, "ignore missing parameters")\n\tcmd.Flags().BoolVarP(&ignoreMissingServices, "ignore-missing-services", "", false, "ignore missing services")', 'cmd.Flags().BoolVarP(&ignoreMissingServices, "ignore-missing-params", "", false, "ignore missing parameters")\n\tcmd.Flags().BoolVarP(&ignoreMissingParams, "ignore-missing-services", "", false, "ignore missing services")', "each_flag_sets_its_own_variable"),
  ("C11_validate_params_stops_at_first_error", "C11", "internal/pkg/input/validators_params.go", "\t\t\terrs = append(errs, newErrUnsupportedType(fmt.Sprintf(\"%+q\", n), v))\n", "\t\t\terrs = append(errs, newErrUnsupportedType(fmt.Sprintf(\"%+q\", n), v))\n\t\t\tbreak\n", "no-early-exit"),
+ ("C18_main_version_and_buildinfo_swapped", "C18", "main.go", "\t\t\tbv.GitVersion,\n\t\t\tbuildInfo(bv),\n", "\t\t\tbuildInfo(bv),\n\t\t\tbv.GitVersion,\n", "main"),
+ ("C10_exit_status_ignores_error", "C10", "main.go", "\tif err := rootCmd.Execute(); err != nil {\n\t\tos.Exit(1)\n\t}\n", "\t_ = rootCmd.Execute()\n", "main"),
  ("C08_output_path_made_absolute", "C08", "internal/cmd/runner/step_code_generator.go", None, None, ""),
 ]
 out = "/verif/selftest/mutants"
